@@ -254,8 +254,17 @@ class Scheduler:
                     sched.yield_point("preempt")
             return local
 
+        import weakref
+
+        weak_file = weakref.__file__
+
         def tracer(frame, event, arg):
-            if frame.f_code.co_filename.startswith(src) and (focus is None or frame.f_code.co_name in focus):
+            code = frame.f_code
+            if code.co_filename.startswith(src) and (focus is None or code.co_name in focus):
+                return local
+            # the channel table is a WeakValueDictionary whose iteration is Python code: a thread can be preempted
+            # in the middle of list(factory._channels) just as well as in execnet's own lines
+            if code.co_filename == weak_file and code.co_name in ("__iter__", "keys", "values", "items", "itervaluerefs"):
                 return local
             return None
 
